@@ -117,6 +117,29 @@ Section Churn.
   Proof. induction ds as [|d ds IH]; [reflexivity|]. cbn [map dead_at]. exact IH. Qed.
 End Churn.
 
+(** received envelopes leave no trace in the registry *)
+Lemma reg_after_strip ss : forall r, reg_after (strip_traffic ss) r = reg_after ss r.
+Proof. induction ss as [|s ss IH]; intros r; [reflexivity|]. destruct s; cbn [strip_traffic reg_after reg_step]; apply IH. Qed.
+
+Section History.
+  Context {D : Type}.
+  Variable dec : bytes -> option D.
+  Variable rpath : D -> bytes.
+
+  (** routing of the envelopes of a phase is a function of the registry changes before it; the envelopes received
+      earlier (how many, to whom, to which incarnation) do not matter *)
+  Lemma routing_history_independent pre1 pre2 chunks r :
+    strip_traffic pre1 = strip_traffic pre2 ->
+    exists routed,
+      routed = map (dispatch rpath (reg_after (strip_traffic pre1) r)) (delivered (receive dec chunks)) /\
+      run_churn dec rpath (pre1 ++ [STraffic chunks]) r = run_churn dec rpath pre1 r ++ routed /\
+      run_churn dec rpath (pre2 ++ [STraffic chunks]) r = run_churn dec rpath pre2 r ++ routed.
+  Proof.
+    intros E. eexists. split; [reflexivity|]. rewrite !run_churn_app. cbn [run_churn]. rewrite !app_nil_r.
+    rewrite <- (reg_after_strip pre1), <- (reg_after_strip pre2), E. split; reflexivity.
+  Qed.
+End History.
+
 Section Codec.
   Context {M : Type}.
   Variable enc : M -> bytes.
